@@ -32,7 +32,20 @@ pub fn tables() -> serde_json::Value {
     serde_json::json!({"rust_keywords": rust, "rust_keywords_legal_in_incan": accepted})
 }
 
-pub const POSITIONS: [(&str, &str); 29] = [
+pub const POSITIONS: [(&str, &str); 40] = [
+    // names the compiler itself gives a meaning to elsewhere: a user method `run` with a keyword `port` (the web
+    // surface's `app.run(port=…)`), under the plain and under every other name
+    ("runportmethod", "class Job:\n    n: int\n\n    def run(self, port: int, NAME: int) -> int:\n        return self.n + port * 10 + NAME\n\ndef main() -> None:\n    j = Job(n=1)\n    println(f\"{j.run(port=3, NAME=2)}\")\n"),
+    ("eqparam", "class P:\n    x: int\n\n    def __eq__(self, NAME: P) -> bool:\n        return self.x == NAME.x\n\ndef main() -> None:\n    println(P(x=1) == P(x=1))\n    println(P(x=1) == P(x=2))\n"),
+    ("variantpayload", "enum E:\n    NAME(int, int)\n    Other\n\ndef main() -> None:\n    e = E.NAME(3, 4)\n    match e:\n        E.NAME(a, b) => println(f\"{a + b}\")\n        E.Other => println(\"other\")\n"),
+    ("variantpayloadbind", "enum E:\n    V(int)\n    Other\n\ndef main() -> None:\n    e = E.V(3)\n    match e:\n        E.V(NAME) => println(f\"{NAME + 1}\")\n        E.Other => println(\"other\")\n"),
+    ("variantpayloadfn", "enum E:\n    NAME(int)\n    Other\n\ndef mk(n: int) -> E:\n    return E.NAME(n)\n\ndef val(e: E) -> int:\n    match e:\n        E.NAME(v) => return v\n        E.Other => return 0\n\ndef main() -> None:\n    println(f\"{val(mk(5))}\")\n"),
+    ("methodnamedarg", "model M:\n    a: int\n\n    def add(self, NAME: int) -> int:\n        return self.a + NAME\n\ndef main() -> None:\n    m = M(a=3)\n    println(f\"{m.add(NAME=2)}\")\n"),
+    ("closuretwoparams", "def main() -> None:\n    f = (a, NAME) => a * 10 + NAME\n    println(f\"{f(2, 3)}\")\n"),
+    ("constinconst", "const NAME: int = 3\nconst OTHER: int = NAME + 1\n\ndef main() -> None:\n    println(f\"{OTHER}\")\n"),
+    ("fieldchain", "model Inner:\n    NAME: int\n\nmodel Outer:\n    inner: Inner\n\ndef main() -> None:\n    o = Outer(inner=Inner(NAME=4))\n    println(f\"{o.inner.NAME + 1}\")\n"),
+    ("passedon", "def g(NAME: int) -> int:\n    return NAME * 2\n\ndef f(NAME: int) -> int:\n    return g(NAME) + g(NAME=NAME)\n\ndef main() -> None:\n    println(f\"{f(3)}\")\n"),
+    ("somepayload", "def f(NAME: int) -> Option[int]:\n    return Some(NAME)\n\ndef main() -> None:\n    match f(4):\n        Some(v) => println(f\"{v}\")\n        None => println(\"none\")\n"),
     ("local", "def main() -> None:\n    NAME = 5\n    println(f\"{NAME}\")\n"),
     ("mutlocal", "def main() -> None:\n    mut NAME = 5\n    NAME += 2\n    NAME = NAME * 2\n    println(f\"{NAME}\")\n"),
     ("param", "def f(NAME: int) -> int:\n    return NAME + 1\n\ndef main() -> None:\n    println(f\"{f(2)}\")\n"),
